@@ -362,6 +362,32 @@ def generate_status(repo: Path) -> str:
             + STATUS_TIE + "\nend Pamiq.GenStatus\n")
 
 
+ADJ_TIE = r'''/-- the adjustor's fields as the model holds them (a reference of `-inf` is `none` there: any number will do here) -/
+def ofAdj (a : Adjust.Adj) : TC :=
+  { interval := a.interval, offset := a.offset, time_to_wait := a.timeToWait, last_reset_time := a.last.getD 0 }
+
+/-- **`IntervalAdjustor.reset()` is one reading of the system clock, stored as the new reference and returned -
+whatever the reference was before** (also a later instant): `Adjust.Adj.reset`, `reset_forgets`, `reset_after_load`. -/
+theorem reset_is_model (a : Adjust.Adj) (t : Adjust.Tl) (rest : List Rat) :
+    (reset.run (ofAdj a, t.sys :: rest)).map (fun x => (x.1, x.2.1.last_reset_time, x.2.1.time_to_wait, x.2.2)) =
+      some ((a.reset t).2, t.sys, a.timeToWait, rest) ∧ (a.reset t).1.last = some t.sys := by
+  constructor
+  · simp [reset, rd, getS, modifyS, ofAdj, Adjust.Adj.reset, StateT.run, bind, StateT.bind, get, getThe, MonadStateOf.get,
+      StateT.get, pure, StateT.pure, set, StateT.set, modify, modifyGet, MonadStateOf.modifyGet, StateT.modifyGet]
+  · rfl
+
+'''
+
+
+def generate_adjustor(repo: Path) -> str:
+    """`IntervalAdjustor.reset` as a Lean action over the adjustor's fields, tied to `Pamiq.Adjust.Adj.reset`."""
+    import translate_class as TCm
+    c = TCm.ClassTr(repo, "interaction/interval_adjustors.py", "IntervalAdjustor", skip_fields=(),
+                    extra_fields=[("last_reset_time", "Rat")])
+    return ("import Pamiq.Model.Adjust\nset_option linter.unusedSimpArgs false\nnamespace Pamiq.GenAdj\nopen Pamiq\n\n"
+            + c.generate(["reset"]) + "\n" + ADJ_TIE + "\nend Pamiq.GenAdj\n")
+
+
 TSCHED_TIE = r'''def ofSched (s : Sched.TSched) : TC := { interval := s.interval, previous_available_time := s.prev }
 
 /-- **`update()` decides once**: the callbacks run and the interval restarts iff the *first* reading is more than
@@ -506,6 +532,7 @@ def check_class(res: SuiteResult, repo: Path, which: str = "TimeController") -> 
     gen, ns, model, nmeth = {"TimeController": (generate_class, "GenTC", "Pamiq.Clock", len(CLASS_METHODS)),
                              "ThreadController": (generate_ctl, "GenCtl", "Pamiq.Proto", len(CTL_METHODS)),
                              "ThreadStatus": (generate_status, "GenStatus", "Pamiq.Proto (flag writes)", 6),
+                             "IntervalAdjustor": (generate_adjustor, "GenAdj", "Pamiq.Adjust", 1),
                              "TimeIntervalScheduler": (generate_tsched, "GenTSched", "Pamiq.Sched", 2),
                              "StepIntervalScheduler": (generate_ssched, "GenSSched", "Pamiq.Sched", 3),
                              "ControlThread.on_tick": (generate_control_tick, "GenCT", "Pamiq.Tick", 5),
@@ -622,6 +649,8 @@ def suite_for(*props: str):
             check_class(res, Path(REPO), "InferenceThread.statistics")
         if "C13" in props:
             check_class(res, Path(REPO), "TrainingThread.on_tick")
+        if "C16" in props:
+            check_class(res, Path(REPO), "IntervalAdjustor")
         text, parts, done, skipped = generate(Path(REPO), props)
         for fn, why in skipped:
             res.evaluations += 1
@@ -716,6 +745,10 @@ if __name__ == "__main__":
         out10.write_text("/- GENERATED by harness/gentie.py (translate_class.py) from /repo's thread/thread_control.py (reference "
                          "copy of what every C01 / C03 run re-creates and re-checks; do not edit). -/\n" + generate_status(Path(REPO)))
         print("written", out10)
+        out11 = Path(LEAN_DIR) / "Pamiq" / "Gen" / "AdjustorTie.lean"
+        out11.write_text("/- GENERATED by harness/gentie.py (translate_class.py) from /repo's interaction/interval_adjustors.py "
+                         "(reference copy of what every C16 run re-creates and re-checks; do not edit). -/\n" + generate_adjustor(Path(REPO)))
+        print("written", out11)
         out = Path(LEAN_DIR) / "Pamiq" / "Gen" / "DecisionsTie.lean"
         out.parent.mkdir(exist_ok=True)
         out.write_text("/- GENERATED by harness/gentie.py from /repo's source (reference copy of what every run "
